@@ -252,7 +252,11 @@ func c08Check[E zzverif.Scalar](v *zzverif.T) {
 		inputs = append(inputs, zzInt64Tensor(starts, []int{n}), zzInt64Tensor(ends, []int{n}))
 		if v.CBool("axes") {
 			for i := 0; i < n; i++ {
-				axes[i] = v.IntIn(fmt.Sprintf("a%d", i), -rank-1, rank)
+				if v.Has("axes_given") {
+					axes[i] = v.CInts("axes_given")[i] // concrete axes (two sliced axes: the ranges stay symbolic)
+				} else {
+					axes[i] = v.IntIn(fmt.Sprintf("a%d", i), -rank-1, rank)
+				}
 			}
 			inputs = append(inputs, zzInt64Tensor(axes, []int{n}))
 		} else if v.CBool("steps") {
